@@ -33,7 +33,7 @@ CHECKS = {
         "assembly",
         "exploration",
         "DESIGN.md 5.1",
-        "seeded search over add/remove/pop/extend/assemble/evaluate histories on the real System with real and fake contributions; registry checked against a list+dict model after every operation, index sets recomputed by the model, every System evaluation method compared with a dense reference scatter, assemble-again compared bit for bit. Sampled histories, not exhaustive.",
+        "seeded search over add/remove/pop/extend/assemble/evaluate histories on the real System with real and fake contributions; registry checked against a list+dict model after every operation, index sets recomputed by the model, every System evaluation method compared with a dense reference scatter (step_callback as the sequential application of the contributions' callbacks), system-level data derived during assembly (e_N, e_F, constant force reservoir) compared with the contributions' own, assemble-again compared bit for bit. Sampled histories, not exhaustive.",
         "trusts the contributions' local methods (only their placement is checked), numpy, and the harness's own connectivity rules for interaction contributions; assembly runs with compute_consistent_initial_conditions=False",
         "deterministic simulation: seeded operation-history machine vs. executable reference model (single-copy list + dense scatter), ddmin-shrunk replay files",
     ),
@@ -41,7 +41,7 @@ CHECKS = {
         "coo",
         "exploration",
         "DESIGN.md 5.2",
-        "seeded search over block-write histories (all index and value kinds, overlaps, nested containers, malformed writes as injected faults) against a dense accumulator with exact arithmetic; sampled, not exhaustive.",
+        "seeded search over block-write histories (all index and value kinds, element types float64 / int / float32 / bool / Python lists, C / Fortran / strided / transposed layouts, overlaps, nested and persistent sub-containers, conversions interleaved with writes, malformed writes as injected faults) against a dense accumulator with exact arithmetic; sampled, not exhaustive.",
         "trusts numpy's np.add.at and scipy.sparse conversions used by the container itself; values are dyadic so sums are exact",
         "deterministic simulation: seeded write-history machine vs. dense reference model with malformed-write fault injection, ddmin-shrunk replay files",
     ),
@@ -57,7 +57,7 @@ CHECKS = {
         "cache",
         "exploration",
         "DESIGN.md 5.12",
-        "seeded search over interleavings of memoised evaluations (argument pools sized so that hits, evictions and re-visits occur) with step callbacks, reference-strain updates and re-assembly, on RigidBody, Sphere2Sphere, all Cosserat rod formulations and Mesh1D; oracle is an unmemoised twin receiving the same history (exact equality). Sampled, not exhaustive.",
+        "seeded search over interleavings of memoised evaluations (argument pools sized so that hits, evictions and re-visits occur) with step callbacks, reference-strain updates and re-assembly, on RigidBody, Sphere2Sphere (incl. a partner moved explicitly in time and two contacts with identical local coordinates), all Cosserat rod formulations and Mesh1D; oracle is an unmemoised twin receiving the same history (exact equality; caches living on a class are emptied before each twin evaluation). Sampled, not exhaustive.",
         "trusts cachetools (LRUCache(maxsize=0) never stores; the counting subclass used on the memoised side does not change behaviour)",
         "deterministic simulation: seeded interleaving machine under cache pressure vs. unmemoised twin (differential oracle), ddmin-shrunk replay files",
     ),
@@ -65,7 +65,7 @@ CHECKS = {
         "initcond",
         "exploration",
         "DESIGN.md 5.3",
-        "seeded sessions whose initial-condition solve is monitored at the first assemble and at states reached by running RATTLE and re-initialising (resting / sliding / sticking contacts, chains with compliance and actuators), plus injected corrupted-restart faults (velocity, position, penetration, approaching contact) that must be rejected and clean states that must be accepted. Sampled, not exhaustive.",
+        "seeded sessions whose initial-condition solve is monitored at the first assemble and at states reached by running RATTLE and re-initialising (resting / sliding / sticking contacts, chains with compliance and actuators), plus injected corrupted-restart faults (velocity, position, penetration, approaching contact) that must be rejected, clean states that must be accepted, and forced / organic failures of the initial-condition contact fixed point with continue_with_unconverged on / off (raise, warn, or consistent values). Chains may carry a user-defined nonholonomic constraint. Sampled, not exhaustive.",
         "trusts the System's model functions (M, h, W_*, g*, gamma_F*) used to evaluate the equations of motion; assembly runs with fixed_point_atol=1e-10, monitor tolerance 1e-6*(1+scale)",
         "deterministic simulation: seeded sessions with per-assembly monitors and corrupted-restart fault injection (F3c), ddmin-shrunk replay files",
     ),
@@ -73,7 +73,7 @@ CHECKS = {
         "constraints",
         "exploration",
         "DESIGN.md 5.4",
-        "seeded sessions of all six dynamic solvers on random open / closed chains with buggified legal solver knobs; the solver-specific constraint / unit-quaternion / equation-of-motion invariant is evaluated at every stored step (Moreau at the recorded midpoint) against a bound reconstructed from the solver's own stopping criterion. Sampled; no adversarial schedule exists for this property, the 'schedule' is the knob / step-size / tolerance draw.",
+        "seeded sessions of all six dynamic solvers on random open / closed chains (parents as first or second joint partner, drives starting from rest, user-defined nonholonomic constraints), on Cosserat rods of every formulation, and on contact scenes that continue after forced fixed-point / Newton failures, with buggified legal solver knobs and step sizes over three decades; the solver-specific constraint / unit-quaternion / equation-of-motion invariant is evaluated at every stored step (Moreau at the recorded midpoint) against a bound reconstructed from the solver's own stopping criterion. Sampled; no adversarial schedule exists for this property, the 'schedule' is the knob / step-size / tolerance draw.",
         "trusts the System's constraint functions; organic solver failures and redundantly constrained scenes are discards (counted); bounds c*(atol+rtol*scale)*sqrt(n), c=50",
         "deterministic simulation: seeded solver runs under a step-boundary seam with per-step invariant monitors and buggified knobs, ddmin-shrunk replay files",
     ),
@@ -81,15 +81,15 @@ CHECKS = {
         "contactlaws",
         "exploration",
         "DESIGN.md 5.5",
-        "seeded sessions of the four nonsmooth solvers on sphere / plane scenes (restitution and friction in [0,1], resting, sliding, spinning, flying starts, anisotropic inertia) with buggified knobs; every stored step is checked for the discrete Signorini-Coulomb laws at the level the scheme enforces them (recorded midpoints for Moreau / DSV) and force-free frictionless scenes for kinetic-energy monotonicity. Sampled, not exhaustive.",
-        "trusts the contact kinematics (g_N, g_N_dot, gamma_F) of the System; 'closed' is decided by the harness from the gap; isotropic friction, e_F = 0; energy clause only for a common restitution coefficient",
+        "seeded sessions of the four nonsmooth solvers on sphere / plane scenes (normal and tangential restitution and friction in [0,1], resting, sliding, spinning, flying starts, anisotropic inertia, floors moved explicitly in time up to 3 g, masses rescaled over eleven decades for Moreau) with buggified knobs; every stored step is checked for the discrete Signorini-Coulomb laws at the level the scheme enforces them (recorded midpoints for Moreau / DSV) and force-free frictionless scenes for kinetic-energy monotonicity. Sampled, not exhaustive.",
+        "trusts the contact kinematics (g_N, g_N_dot, gamma_F) of the System; 'closed' is decided by the harness from the gap; isotropic friction; e_F only on sphere-plane contacts; percussion tolerances relative to the scene's mass scale; energy clause only for a common restitution coefficient",
         "deterministic simulation: seeded solver runs under a step-boundary seam with recorded midpoint configurations and per-step invariant monitors, ddmin-shrunk replay files",
     ),
     "C20": (
         "solution",
         "exploration",
         "DESIGN.md 5.7",
-        "seeded runs of all eight solvers over a sweep of (t0, t1, dt) including decimal-exact multiples that are inexact in binary, tiny runs and non-zero initial times, with injected truncation faults (forced Newton failure, SciPy back-end stop); grid start / step / end point, field shapes, iteration and save -> load through a real file are checked on every returned Solution. Sampled, not exhaustive.",
+        "seeded runs of all eight solvers over a sweep of (t0, t1, dt) including decimal-exact multiples that are inexact in binary, tiny runs and non-zero initial times, with injected truncation faults (forced Newton failure, SciPy back-end stop); grid start / step / end point, field shapes, iteration and save -> load through a real file (incl. systems with Cosserat rods) are checked on every returned Solution. Sampled, not exhaustive.",
         "Riks' arc-length parameter is exempt from the grid clauses; dill round trip through a private temp directory",
         "deterministic simulation: seeded solver runs with truncation fault injection and a real-file save/load seam, contract checked on every returned Solution, ddmin-shrunk replay files",
     ),
@@ -97,7 +97,7 @@ CHECKS = {
         "nonconv",
         "fault_enumeration",
         "DESIGN.md 5.8",
-        "for each sampled session a fault-free pilot run enumerates, through the guarded decision hook, every loop instance reached (fsolve call j of step k, each fixed-point loop of step k); thorough forces every one of them (quick: a seeded sample of <= 6) to 'never converges' in a fresh run through the real code path, SciPy back ends get a back-end stop; the reaction (raise / warn naming the time and return converged steps only / warn and continue) is judged over the recorded event history; differential runs decide 'does not silently ignore' for contacts and actuators. Enumeration is complete per session (up to 80 points), sessions are sampled.",
+        "for each sampled session a fault-free pilot run enumerates, through the guarded decision hook, every loop instance reached (fsolve call j of step k, each fixed-point loop of step k); thorough forces every one of them (quick: a seeded sample of <= 6) to 'never converges' in a fresh run through the real code path, SciPy back ends get a back-end stop; the reaction (raise / warn naming the time and return converged steps only / warn and continue) is judged over the recorded event history; differential runs decide 'does not silently ignore' for contacts and actuators; a third of the contact sessions use a prox parameter beyond the contraction range so that fixed points fail organically. Enumeration is complete per session (up to 80 points), sessions are sampled.",
         "trusts the hook (add-only, reports every decision; forced decisions run the loop out of budget through the real branch); 'names the time' = number equal to the stop time / failed step time (3 digits) or the step index",
         "deterministic simulation: convergence-fault injection at every enumerated injection point of a pilot run (decision hook seam), reaction oracle over the event history, ddmin-shrunk replay files",
     ),
@@ -105,7 +105,7 @@ CHECKS = {
         "restart",
         "fault_enumeration",
         "DESIGN.md 5.10",
-        "crash / restart fault at every split step of a sampled session (thorough; quick: 3 seeded split steps), system copy taken before or after the first leg, durable state handed over in memory or through save/load on disk; oracles: second leg equals the uninterrupted run, model identity against a system the harness builds itself from the body-fixed plan at the restart state, re-initialisation must not raise. Sessions are sampled; split points are enumerated per session.",
+        "crash / restart fault at every split step of a sampled session (thorough; quick: 3 seeded split steps) on chains, revolute-spring systems, contact scenes, Cosserat rods and nonholonomic constraints, arbitrary time origins (splits exactly at t = 0), system copy taken before the run, after the first leg or after the whole uninterrupted run, durable state handed over in memory or through save/load on disk; oracles: second leg equals the uninterrupted run, model identity against a system the harness builds itself from the body-fixed plan at the restart state, re-initialisation must not raise. Sessions are sampled; split points are enumerated per session.",
         "trusts the harness-built model (scenes.build with state override) and the harness's own unwrapped revolute angles; velocity-level solvers restart with compute_consistent_initial_conditions=False",
         "deterministic simulation: crash/restart fault injection at enumerated split steps with durable-state seam (memory / file), differential oracle against the uninterrupted run and an independently built model, ddmin-shrunk replay files",
     ),
@@ -113,7 +113,7 @@ CHECKS = {
         "rattle_sym",
         "exploration",
         "DESIGN.md 5.6",
-        "seeded conservative scenes run with RATTLE at Newton tolerance 1e-11: forward / reverse-velocities / back histories (reversed system built by the harness at the reached state, or deepcopy + set_new_initial_state; optional crash/restart inside the forward leg) must return to the start; dt vs dt/2 energy-error ratio; long-horizon runs for secular energy drift (linear trend vs oscillation amplitude). Sampled, not exhaustive; the 'schedule' is the scene / step-size / history draw.",
+        "seeded conservative scenes run with RATTLE at Newton tolerance 1e-11: forward / reverse-velocities / back histories (reversed system built by the harness at the reached state, or deepcopy + set_new_initial_state; optional crash/restart inside the forward leg) must return to the start (springs in force or compliance form, very fine to ordinary steps, a user-defined contribution with configuration-dependent mass matrix); a RATTLE state rejected by assembly is a violation; dt vs dt/2 energy-error ratio; long-horizon runs for secular energy drift (linear trend vs oscillation amplitude). Sampled, not exhaustive; the 'schedule' is the scene / step-size / history draw.",
         "kinetic energy 0.5 u^T M u and System.E_pot as energy; reversibility tolerance 1e-7*(1+scale); order ratio only where the coarse error exceeds 1e-8*(1+|E|); drift clause only on single-body pendulum-like scenes (many periods inside the horizon)",
         "deterministic simulation: seeded advance / reverse / restart histories checked against time-reversal symmetry and Richardson / drift statistics of the recorded energy history, ddmin-shrunk replay files",
     ),
@@ -121,7 +121,7 @@ CHECKS = {
         "statics",
         "exploration",
         "DESIGN.md 5.9",
-        "seeded static problems (clamped cantilevers for every rod formulation, rigid body on springs, sphere pressed onto a plane, Riks on truss and cantilever); every returned load step / arc-length point is checked with harness-recomputed residuals against the solver's own scaled criterion; forced Newton failure at a seeded load step; frame indifference by solving the rigidly moved problem. Sampled, not exhaustive.",
+        "seeded static problems (clamped cantilevers for every rod formulation, rigid body on springs and dampers with non-zero initial velocities, sphere pressed onto a plane, Riks on truss and cantilever); every returned load step / arc-length point is checked with harness-recomputed residuals against the solver's own scaled criterion; forced Newton failure at a seeded load step; frame indifference by solving the rigidly moved problem. Sampled, not exhaustive.",
         "trusts the System's model functions for the residual; bound 50 x the reconstructed solver criterion; frame-indifference tolerance 1e-7*(1+scale)",
         "deterministic simulation: seeded load-step runs under the load-step seam with per-point equilibrium monitors, convergence-fault injection and a moved-twin differential oracle, ddmin-shrunk replay files",
     ),
@@ -129,7 +129,7 @@ CHECKS = {
         "export",
         "exploration",
         "DESIGN.md 5.13",
-        "seeded sessions (multibody runs and static rod solutions) followed by export operations with random fps, overwrite flag, pre-existing folders, repeated exports, lists and System.export; the written .pvd / .vtu files are read back with VTK's reader and compared with geometry recomputed by the harness from the solution at each exported frame's time. Sampled, not exhaustive.",
+        "seeded sessions (multibody runs with arbitrary time origins, meshed bodies, static rod solutions) followed by export operations with random fps, overwrite flag, pre-existing folders, repeated exports, lists, System.export and injected export failures part-way (later exports must be unaffected); the written .pvd / .vtu files are read back with VTK's reader and compared with geometry recomputed by the harness from the solution at each exported frame's time. Sampled, not exhaustive.",
         "trusts VTK's reader and the harness's geometry formulas; rods are re-evaluated through their public r_OP / A_IB; points are Float32 (1e-6), data arrays 1e-9",
         "deterministic simulation: file-seam export / read-back with environment-state faults (pre-existing folders and files) against independently recomputed geometry, ddmin-shrunk replay files",
     ),
